@@ -13,13 +13,32 @@ pub open spec fn chunk_data(bytes: Seq<u8>, pos: nat) -> Seq<u8> {
 }
 pub open spec fn chunk_next(bytes: Seq<u8>, pos: nat) -> nat { pos + 8 + chunk_avail(bytes, pos) }
 pub open spec fn well_formed_at(bytes: Seq<u8>, pos: nat) -> bool { pos + 8 + chunk_clen(bytes, pos) <= bytes.len() }
-// what every single-chunk decoder must deliver on Ok: the returned pair, the bytes appended to the writer, the new reader position
-pub open spec fn single_ok(bytes: Seq<u8>, pos: nat, w0: Seq<u8>, w1: Seq<u8>, pos1: nat, ret: (usize, u32)) -> bool {
+// what every single-chunk decoder must deliver on Ok: the returned pair and the bytes appended to the writer ...
+pub open spec fn single_ok_data(bytes: Seq<u8>, pos: nat, w0: Seq<u8>, w1: Seq<u8>, ret: (usize, u32)) -> bool {
     &&& pos + 8 <= bytes.len() && chunk_scheme(bytes, pos) is Some
     &&& ret.0 == 8 + chunk_clen(bytes, pos)
     &&& ret.1 == chunk_ulen(bytes, pos) && chunk_ulen(bytes, pos) == chunk_data(bytes, pos).len()
     &&& w1 == w0 + chunk_data(bytes, pos)
+}
+// ... and the new reader position.  `single_ok`: the reader stands behind the DECLARED payload (the async / stream decoder, which `read_exact`s the
+// declared length; the sync decoder when the payload is frame-exact)
+pub open spec fn single_ok(bytes: Seq<u8>, pos: nat, w0: Seq<u8>, w1: Seq<u8>, pos1: nat, ret: (usize, u32)) -> bool {
+    &&& single_ok_data(bytes, pos, w0, w1, ret)
     &&& pos1 == chunk_next(bytes, pos)
+}
+// how much of the payload the reader-based codec consumes (see consumed_spec): all of it for scheme None, the lz4 frame otherwise
+pub open spec fn chunk_consumed(bytes: Seq<u8>, pos: nat) -> nat {
+    match chunk_scheme(bytes, pos) { Some(s) => consumed_spec(s, chunk_payload(bytes, pos)), None => chunk_avail(bytes, pos) }
+}
+pub open spec fn chunk_next_sync(bytes: Seq<u8>, pos: nat) -> nat { pos + 8 + chunk_consumed(bytes, pos) }
+// no slack between the end of the encoded unit and the end of the declared payload (true of every chunk serialize_chunk writes)
+pub open spec fn frame_exact_at(bytes: Seq<u8>, pos: nat) -> bool { chunk_consumed(bytes, pos) == chunk_avail(bytes, pos) }
+// `single_ok_sync`: what the SYNC decoder (decompress_from_reader over `reader.take(clen)`) delivers for ARBITRARY stored bytes: same pair, same data,
+// but the reader stands behind what the codec consumed -- inside the declared payload if that has slack after the lz4 frame
+pub open spec fn single_ok_sync(bytes: Seq<u8>, pos: nat, w0: Seq<u8>, w1: Seq<u8>, pos1: nat, ret: (usize, u32)) -> bool {
+    &&& single_ok_data(bytes, pos, w0, w1, ret)
+    &&& chunk_consumed(bytes, pos) <= chunk_avail(bytes, pos)
+    &&& pos1 == chunk_next_sync(bytes, pos)
 }
 
 
@@ -33,6 +52,11 @@ pub open spec fn total_len(bytes: Seq<u8>, p0: nat, i: nat) -> nat decreases i {
 }
 pub open spec fn concat_data(bytes: Seq<u8>, p0: nat, i: nat) -> Seq<u8> decreases i {
     if i == 0 { Seq::empty() } else { concat_data(bytes, p0, (i - 1) as nat) + chunk_data(bytes, walk_pos(bytes, p0, (i - 1) as nat)) }
+}
+// every chunk of the run that starts inside the input is frame-exact: the domain on which the sync multi-chunk decoders walk the same positions as
+// the async ones (true of everything CasObject::serialize / serialize_chunk write)
+pub open spec fn frames_exact(bytes: Seq<u8>, p0: nat) -> bool {
+    forall|k: nat| walk_pos(bytes, p0, k) + 8 <= bytes.len() ==> frame_exact_at(bytes, #[trigger] walk_pos(bytes, p0, k))
 }
 // sum of the serialized sizes the headers claim (8 + compressed length)
 pub open spec fn claimed_len(bytes: Seq<u8>, p0: nat, i: nat) -> nat decreases i {
